@@ -25,11 +25,23 @@ import (
 	"time"
 )
 
-const (
+// The tree this binary belongs to: <verifDir>/bin/vcheck. Registered checks run /verif/bin/vcheck;
+// a `vp run` snapshot runs its own copy against its own sim/ sources.
+var (
 	verifDir = "/verif"
 	simDir   = "/verif/sim"
 	outDir   = "/verif/out"
 )
+
+func init() {
+	if exe, err := os.Executable(); err == nil {
+		if d := filepath.Dir(filepath.Dir(exe)); filepath.Base(filepath.Dir(exe)) == "bin" {
+			if _, err := os.Stat(filepath.Join(d, "sim", "go.mod")); err == nil {
+				verifDir, simDir, outDir = d, filepath.Join(d, "sim"), filepath.Join(d, "out")
+			}
+		}
+	}
+}
 
 // propCfg is the per-property budget table.
 type propCfg struct {
@@ -120,6 +132,29 @@ func die(code int, format string, a ...interface{}) {
 	os.Exit(code)
 }
 
+// altModfile returns extra go-build arguments that point the harness module's replace directive at
+// $VERIF_REPO instead of /repo (selftests only: lets mutants be checked in scratch worktrees, in
+// parallel, without touching /repo). Registered checks never set it.
+func altModfile() []string {
+	alt := os.Getenv("VERIF_REPO")
+	if alt == "" {
+		return nil
+	}
+	b, err := os.ReadFile(filepath.Join(simDir, "go.mod"))
+	if err != nil {
+		die(2, "go.mod: %v", err)
+	}
+	dir, err := os.MkdirTemp("", "vcheck-mod-")
+	if err != nil {
+		die(2, "modfile: %v", err)
+	}
+	mod := strings.Replace(string(b), "=> /repo", "=> "+alt, 1)
+	os.WriteFile(filepath.Join(dir, "alt.mod"), []byte(mod), 0644)
+	sum, _ := os.ReadFile(filepath.Join(simDir, "go.sum"))
+	os.WriteFile(filepath.Join(dir, "alt.sum"), sum, 0644)
+	return []string{"-modfile=" + filepath.Join(dir, "alt.mod")}
+}
+
 func goEnv() []string {
 	env := os.Environ()
 	env = append(env, "GOFLAGS=-mod=mod", "GOPROXY=off", "GOSUMDB=off", "GOTOOLCHAIN=local")
@@ -142,6 +177,7 @@ func buildVariant(variant, dst string) error {
 	case "strip":
 		args = append(args, "-ldflags=-s")
 	}
+	args = append(args, altModfile()...)
 	args = append(args, "./cmd/simnode")
 	cmd := exec.Command("go", args...)
 	cmd.Dir = simDir
@@ -163,6 +199,7 @@ func build(race bool, dst string) error {
 		// not part of any property, the race detector is the oracle here
 		args = []string{"build", "-tags", "verif", "-race", "-gcflags=all=-l -d=checkptr=0", "-o", dst}
 	}
+	args = append(args, altModfile()...)
 	args = append(args, "./cmd/simnode")
 	cmd := exec.Command("go", args...)
 	cmd.Dir = simDir
@@ -1251,7 +1288,11 @@ func writeEvidence(r *runner, prop, tier string, seed uint64, cfg propCfg, t0 ti
 		cov["notes"] = notes
 	}
 	ev := evidence{PropertyID: prop, Tier: tier, Seed: seed, Level: cfg.Level, Coverage: cov, Assumptions: cfg.Assume, WallS: wall, Violations: nviol}
-	os.MkdirAll(filepath.Join(verifDir, "evidence"), 0755)
+	evDir := filepath.Join(verifDir, "evidence")
+	if d := os.Getenv("VERIF_EVIDENCE_DIR"); d != "" {
+		evDir = d // selftests only
+	}
+	os.MkdirAll(evDir, 0755)
 	b, _ := json.MarshalIndent(ev, "", " ")
-	os.WriteFile(filepath.Join(verifDir, "evidence", prop+".json"), b, 0644)
+	os.WriteFile(filepath.Join(evDir, prop+".json"), b, 0644)
 }
